@@ -85,11 +85,12 @@ type inst struct {
 }
 
 var shapes = []string{"file", "file", "dir", "dir-nonexec", "dir-extra-before", "dir-extra-after", "dir-nonexec-extra-after", "dir-nonexec-extra-before", "dir-subdir", "dir-subdir-before",
-	"dir-subdir-samename", "dir-symlink-extra", "dir-two", "dir-two-nonexec", "dir-no-candidate", "badmeta", "misnamed", "file-nonexec", "dir-badmeta", "file-via-symlink", "file-via-symlink", "misnamed-case"}
+	"dir-subdir-samename", "dir-symlink-extra", "dir-two", "dir-two-nonexec", "dir-no-candidate", "badmeta", "misnamed", "file-nonexec", "dir-badmeta", "file-via-symlink", "file-via-symlink", "misnamed-case",
+	"dir-samename-subdir", "dir-candidate-symlink", "dir-extra-group-exec", "dir-single-group-exec-only"}
 
 func main() {
 	r := lib.Start("C20", "exploration")
-	r.Rule = "PRNG sequences of up to 6 install/uninstall operations over 2 plugin names x 23 versions (17 in precedence order incl. pre-release/build metadata/numeric-vs-lexical traps, 6 invalid) x overwrite x 21 source shapes (file; file whose name differs from the reported name in letter case only; symbolic link to the file; directory with executable / single non-executable candidate, extra files sorting before and after, sub-directories incl. one holding a same-named executable, symlink, two candidates, none; invalid / misnamed metadata; non-executable file); distinct by (sequence, step); non-trivial = install onto an existing plugin, or from a directory source"
+	r.Rule = "PRNG sequences of up to 6 install/uninstall operations over 2 plugin names x 23 versions (17 in precedence order incl. pre-release/build metadata/numeric-vs-lexical traps, 6 invalid) x overwrite x 25 source shapes (file; sub-directory named like the source; symlinked candidate; group-only execute bits; file whose name differs from the reported name in letter case only; symbolic link to the file; directory with executable / single non-executable candidate, extra files sorting before and after, sub-directories incl. one holding a same-named executable, symlink, two candidates, none; invalid / misnamed metadata; non-executable file); distinct by (sequence, step); non-trivial = install onto an existing plugin, or from a directory source"
 	r.Assumptions = []string{"plugins are /bin/sh scripts printing embedded metadata (benign names only)",
 		"first-time installation of a plugin whose version is not a semantic version is not judged (nothing is replaced)",
 		"expected mode of an installed file = source mode & 0755; a single non-executable candidate gets its user-execute bit set first (documented behaviour)"}
@@ -206,11 +207,14 @@ func runSequence(ctx context.Context, r *lib.Run, seq int, pending *[]func()) (b
 				if strings.Contains(shape, "nonexec") {
 					mode = 0o644
 				}
+				if shape == "dir-single-group-exec-only" {
+					mode = 0o654 // executable for the group only: not executable for its owner, hence "non-executable candidate"
+				}
 				os.WriteFile(exe, content, mode)
 				os.Chmod(exe, mode)
 				expect := map[string]finfo{"notation-" + name: {string(content), mode & 0o755}}
-				if mode == 0o644 {
-					expect["notation-"+name] = finfo{string(content), 0o744}
+				if mode&0o100 == 0 { // a single candidate its owner cannot execute gets the user-execute bit set first
+					expect["notation-"+name] = finfo{string(content), (mode | 0o100) & 0o755}
 				}
 				path, usable := src, true
 				addExtra := func(fn, c string, m os.FileMode) {
@@ -254,6 +258,26 @@ func runSequence(ctx context.Context, r *lib.Run, seq int, pending *[]func()) (b
 				case "dir-symlink-extra":
 					os.WriteFile(filepath.Join(base, "outside.txt"), []byte("outside"), 0o644)
 					os.Symlink(filepath.Join(base, "outside.txt"), filepath.Join(src, "link.txt"))
+				case "dir-samename-subdir":
+					// the archive was unpacked as srcN/srcN/...: a sub-directory with the SAME name as the source directory is a
+					// sub-directory like any other - nothing of it is installed
+					addExtra("LICENSE", "top-level licence", 0o644)
+					nested := filepath.Join(src, filepath.Base(src))
+					os.MkdirAll(nested, 0o755)
+					os.WriteFile(filepath.Join(nested, "LICENSE"), []byte("NESTED licence"), 0o644)
+					os.WriteFile(filepath.Join(nested, "data.bin"), []byte("nested data"), 0o644)
+				case "dir-candidate-symlink":
+					// the only notation-* entry of the directory is a symbolic link (to a perfectly good executable): directory
+					// sources take regular files only, so there is no candidate
+					realExe := filepath.Join(base, fmt.Sprintf("real-exe-%d", op))
+					os.Rename(exe, realExe)
+					os.Symlink(realExe, exe)
+					addExtra("README", "readme", 0o644)
+					usable = false
+				case "dir-extra-group-exec":
+					// next to the executable, a notation-* data file that only the GROUP may execute: not an executable candidate
+					addExtra("notation-"+name+".sha256", "checksum", 0o654)
+				case "dir-single-group-exec-only":
 				case "dir-two":
 					os.WriteFile(filepath.Join(src, "notation-second"), script("second", v.s, false), 0o755)
 					usable = false
